@@ -34,9 +34,11 @@ const (
 	KEnd
 	KLockWait // trace only: Lock found readers, announced itself (new readers now block) and waits for them to drain
 	KSpawn    // a go statement of the code under test (rewritten by the build overlay to vsched.Go)
+	KWGAdd    // WaitGroup.Add / Done (val: *int64 counter, already updated by the caller)
+	KWGWait   // WaitGroup.Wait: enabled once the counter (val: *int64) is zero
 )
 
-var kindNames = [...]string{"Start", "Lock", "Unlock", "RLock", "RUnlock", "Get", "Put", "Once", "OnceDone", "Yield", "TryLock", "TryRLock", "End", "LockWait", "Spawn"}
+var kindNames = [...]string{"Start", "Lock", "Unlock", "RLock", "RUnlock", "Get", "Put", "Once", "OnceDone", "Yield", "TryLock", "TryRLock", "End", "LockWait", "Spawn", "WGAdd", "WGWait"}
 
 func (k Kind) String() string { return kindNames[k] }
 
@@ -93,6 +95,9 @@ func Point(kind Kind, obj uintptr, val interface{}) Answer {
 	}
 	return a
 }
+
+//go:norace
+func wgZero(p *int64) bool { return *p <= 0 }
 
 // Go replaces a go statement of the code under test (cmd/mkoverlay rewrites `go f(x)` to a call of Go). Outside an
 // exploration it is a plain go statement; inside, the new goroutine becomes a thread of the controlled scheduler: the
@@ -351,6 +356,10 @@ func (e *Explorer) run(prefix []int) *Exec {
 		case KOnce:
 			o := onces[r.obj]
 			return o == nil || o.done || o.running < 0
+		case KWGWait:
+			if p, ok := r.val.(*int64); ok {
+				return wgZero(p)
+			}
 		}
 		return true
 	}
